@@ -143,7 +143,7 @@ var globalKeys = []annChoice{
 // GenOptions restrict and bias the generator for one profile.
 type GenOptions struct {
 	TCPConfigMap bool // the run has a tcp-services ConfigMap (ctl.TCPConfigMap must be set as well)
-	SvcAnnChance int // a Service gets each of its keys with chance 1/SvcAnnChance (default 5)
+	SvcAnnChance int  // a Service gets each of its keys with chance 1/SvcAnnChance (default 5)
 	// key allow-lists; nil = all
 	IngressKeys []string
 	ServiceKeys []string
@@ -201,7 +201,7 @@ var defaultPaths = []string{"/", "/app", "/app/", "/app1", "/app/sub", "/App", "
 var defaultWeights = map[string]int{
 	"ing_create": 6, "ing_delete": 4, "ing_update": 14, "ing_ann": 8,
 	"svc_update": 4, "svc_delete": 1, "svc_create": 2,
-	"ep_scale": 12, "ep_ready": 5, "ep_replace": 5,
+	"ep_scale": 12, "ep_ready": 5, "ep_replace": 5, "ep_reorder": 2,
 	"secret_rotate": 5, "secret_delete": 2, "secret_create": 3, "secret_break": 1,
 	"global_change": 4, "pod_term": 3, "class_change": 2,
 	"renotify": 3, "advance": 6,
@@ -339,6 +339,23 @@ func (g *gen) sanitize(o client.Object) {
 				ps[j].Path = "/"
 			}
 			ing.Spec.Rules[i].HTTP.Paths = ps
+		}
+	}
+	if _, tcp := ing.Annotations[annPrefix+"tcp-service-port"]; tcp && g.opt.Avoid["tcp_not_default_service"] && ing.Namespace == "a" {
+		// KF-default-backend-shared-with-tcp-service: a TCP service never targets the service that
+		// --default-backend-service may name (a/s1)
+		for i := range ing.Spec.Rules {
+			if ing.Spec.Rules[i].HTTP == nil {
+				continue
+			}
+			for j := range ing.Spec.Rules[i].HTTP.Paths {
+				if b := ing.Spec.Rules[i].HTTP.Paths[j].Backend.Service; b != nil && b.Name == "s1" {
+					b.Name = "s2"
+				}
+			}
+		}
+		if db := ing.Spec.DefaultBackend; db != nil && db.Service != nil && db.Service.Name == "s1" {
+			db.Service.Name = "s2"
 		}
 	}
 	if g.opt.Avoid["no_upper_case_prefix"] {
@@ -829,6 +846,10 @@ func (g *gen) genGlobal(cur map[string]string, nchanges int) map[string]string {
 			data[k.Key] = pickStr(g, k.Values)
 		}
 	}
+	if _, has := data["auth-proxy"]; has && g.opt.Avoid["auth_proxy_range_wide"] {
+		// KF-auth-proxy-range-first-come: the range never runs out of ports
+		data["auth-proxy"] = "_front__auth:14415-14440"
+	}
 	return data
 }
 
@@ -1114,12 +1135,24 @@ func (g *gen) genOp(name string) {
 			g.emit(p, "create") // pods exist before the endpoints controller lists them
 		}
 		g.emit(ep, "create")
-	case "ep_scale", "ep_replace", "ep_ready":
+	case "ep_scale", "ep_replace", "ep_ready", "ep_reorder":
 		keys := g.keys(KEndpoints)
 		if len(keys) == 0 {
 			return
 		}
 		cur := g.objs[KEndpoints][keys[g.pick(len(keys))]].(*api.Endpoints)
+		if name == "ep_reorder" {
+			// the same addresses in another order (what --sort-endpoints-by=endpoint passes on)
+			if len(cur.Subsets) == 0 || len(cur.Subsets[0].Addresses) < 2 {
+				return
+			}
+			ne := cur.DeepCopy()
+			a := ne.Subsets[0].Addresses
+			k := 1 + g.pick(len(a)-1)
+			ne.Subsets[0].Addresses = append(append([]api.EndpointAddress{}, a[k:]...), a[:k]...)
+			g.emit(ne, "reorder")
+			return
+		}
 		i := svcIndex(cur.Namespace, cur.Name)
 		var n int
 		curN := 0
